@@ -177,6 +177,11 @@ theorem values_at (r : Root) (i : Nat) (vs : List Value) (hv : r.values[i]? = so
     indexVal goData (.data (.valuess (r.values.map (·.map abs)))) [.int (i : Int)] = some (.data (.values (vs.map abs))) := by
   simp [indexVal, hv]
 
+/-- `$traits := index $.Traits $i` -/
+theorem traits_at (r : Root) (i : Nat) (ts : List TraitDesc) (ht : r.traits[i]? = some ts) :
+    indexVal goData (.data (.traitss r.traits)) [.int (i : Int)] = some (.data (.traits ts)) := by
+  simp [indexVal, ht]
+
 /-- `$values.ValueDeduplicatedSet`: the TRANSLATED method, which returns the model's `dedup` -/
 theorem field_dedup (vs : List Value) (hu : ∀ v ∈ vs, U64 v) :
     goData.field (.values (vs.map abs)) "ValueDeduplicatedSet" = some (.data (.values ((dedup vs).map abs))) := by
@@ -197,11 +202,12 @@ def tableText (T : String) (names : List String) : List String :=
   ["\n\nvar _", T, "Values = []", T, "{"] ++ names.flatMap (fun n => ["\n\t", n, ","]) ++ ["\n}"]
 
 theorem go_render_values_eq (r : Root) (i : Nat) (T : String) (vs : List Value)
-    (hv : r.values[i]? = some vs) (hu : ∀ v ∈ vs, U64 v) :
+    (ts : List TraitDesc) (hv : r.values[i]? = some vs) (ht : r.traits[i]? = some ts) (hu : ∀ v ∈ vs, U64 v) :
     renderSec r i T secTable = some (tableText T (renderWith dedup r.opts T vs).stringValues) := by
   have h1 := values_at r i vs hv
   have h2 := field_dedup vs hu
-  tsimp [secTable, h1, h2]
+  have h3 := traits_at r i ts ht
+  tsimp [h3, secTable, h1, h2]
   rw [rangeLoop_mapped (g := fun v => ["\n\t", v.name, ","])]
   · simp [tableText, renderWith, GenOut.stringValues, List.flatMap_map]
   · intro i a _; simp
@@ -212,11 +218,12 @@ def stringValuesText (T : String) (names : List String) : List String :=
     T, ") StringValues() []string {\n\treturn []string{"] ++ names.flatMap (fun n => ["\n\t\t\"", n, "\","]) ++ ["\n\t}\n}"]
 
 theorem go_render_stringValues_eq (r : Root) (i : Nat) (T : String) (vs : List Value)
-    (hv : r.values[i]? = some vs) (hu : ∀ v ∈ vs, U64 v) :
+    (ts : List TraitDesc) (hv : r.values[i]? = some vs) (ht : r.traits[i]? = some ts) (hu : ∀ v ∈ vs, U64 v) :
     renderSec r i T secStringValues = some (stringValuesText T (renderWith dedup r.opts T vs).stringValues) := by
   have h1 := values_at r i vs hv
   have h2 := field_dedup vs hu
-  tsimp [secStringValues, h1, h2]
+  have h3 := traits_at r i ts ht
+  tsimp [h3, secStringValues, h1, h2]
   rw [rangeLoop_mapped (g := fun v => ["\n\t\t\"", v.name, "\","])]
   · simp [stringValuesText, renderWith, GenOut.stringValues, List.flatMap_map]
   · intro i a _; simp
@@ -229,11 +236,12 @@ def stringText (T : String) (table : List Value) : List String :=
   ["\n\tdefault:\n\t\treturn fmt.Sprintf(\"Undefined", T, ":%d\", e)\n\t}\n}"]
 
 theorem go_render_string_eq (r : Root) (i : Nat) (T : String) (vs : List Value)
-    (hv : r.values[i]? = some vs) (hu : ∀ v ∈ vs, U64 v) :
+    (ts : List TraitDesc) (hv : r.values[i]? = some vs) (ht : r.traits[i]? = some ts) (hu : ∀ v ∈ vs, U64 v) :
     renderSec r i T secString = some (stringText (renderWith dedup r.opts T vs).tname (renderWith dedup r.opts T vs).table) := by
   have h1 := values_at r i vs hv
   have h2 := field_dedup vs hu
-  tsimp [secString, h1, h2]
+  have h3 := traits_at r i ts ht
+  tsimp [h3, secString, h1, h2]
   rw [rangeLoop_mapped (g := fun v => ["\n\tcase ", v.name, ":\n\t\treturn \"", v.name, "\""])]
   · simp [stringText, renderWith]
   · intro i a _; simp
@@ -244,19 +252,23 @@ def valuesText (T : String) : List String :=
   ["\n\n// Values returns a list of all potential values of this enum.\nfunc (", T, ") Values() []", T,
     " {\n\treturn slices.Clone(_", T, "Values)\n}"]
 
-theorem go_render_valuesFn_eq (r : Root) (i : Nat) (T : String) (vs : List Value) (hv : r.values[i]? = some vs) :
+theorem go_render_valuesFn_eq (r : Root) (i : Nat) (T : String) (vs : List Value) (ts : List TraitDesc)
+    (hv : r.values[i]? = some vs) (ht : r.traits[i]? = some ts) :
     renderSec r i T secValues = some (valuesText T) := by
   have h1 := values_at r i vs hv
-  tsimp [secValues, h1, valuesText]
+  have h3 := traits_at r i ts ht
+  tsimp [h3, secValues, h1, valuesText]
 
 def parseStringText (T : String) : List String :=
   ["\n\n// ParseString will return a value as defined in string form.\nfunc (e ", T, ") ParseString(text string) (", T,
     ", error) {\n\treturn Parse", T, "(text)\n}"]
 
-theorem go_render_parseString_eq (r : Root) (i : Nat) (T : String) (vs : List Value) (hv : r.values[i]? = some vs) :
+theorem go_render_parseString_eq (r : Root) (i : Nat) (T : String) (vs : List Value) (ts : List TraitDesc)
+    (hv : r.values[i]? = some vs) (ht : r.traits[i]? = some ts) :
     renderSec r i T secParseString = some (parseStringText T) := by
   have h1 := values_at r i vs hv
-  tsimp [secParseString, h1, parseStringText]
+  have h3 := traits_at r i ts ht
+  tsimp [h3, secParseString, h1, parseStringText]
 
 /-! ### `IsValid`: which branch is written -/
 
@@ -269,11 +281,13 @@ def isValidText (T : String) (binary : Bool) : List String :=
 
 /-- the template takes the binary search exactly when the model's `GenOut.isValid` does: more than
 `bsThreshold` (15) constants, duplicates included -/
-theorem go_render_isValid_eq (r : Root) (i : Nat) (T : String) (vs : List Value) (hv : r.values[i]? = some vs) :
+theorem go_render_isValid_eq (r : Root) (i : Nat) (T : String) (vs : List Value) (ts : List TraitDesc)
+    (hv : r.values[i]? = some vs) (ht : r.traits[i]? = some ts) :
     renderSec r i T secIsValid
       = some (isValidText T (decide ((renderWith dedup r.opts T vs).nAll > bsThreshold))) := by
   have h1 := values_at r i vs hv
-  tsimp [secIsValid, h1, isValidText, renderWith, bsThreshold]
+  have h3 := traits_at r i ts ht
+  tsimp [h3, secIsValid, h1, isValidText, renderWith, bsThreshold]
   by_cases h : 15 < vs.length
   · have h' : (15 : Int) < (vs.length : Int) := by omega
     simp [h, h']
@@ -302,11 +316,6 @@ def parseText (T : String) (cases : List ParseCase) (lower : Option (List (Strin
     T, "(input any) (", T, ", error) {\n\tswitch input {"] ++
   cases.flatMap caseText ++ ["\n\tdefault:"] ++ lowerText lower ++
   ["\n\t\treturn 0, fmt.Errorf(\"`%+v` could not be parsed to enum of type ", T, "\", input)\n\t}\n}"]
-
-/-- `$traits := index $.Traits $i` -/
-theorem traits_at (r : Root) (i : Nat) (ts : List TraitDesc) (ht : r.traits[i]? = some ts) :
-    indexVal goData (.data (.traitss r.traits)) [.int (i : Int)] = some (.data (.traits ts)) := by
-  simp [indexVal, ht]
 
 /-- `$trait.InstanceOf $val` on the value as the template holds it = the model's `instanceOf` -/
 @[simp] theorem gd_instanceOf (t : TraitDesc) (v : Value) :
@@ -382,10 +391,12 @@ def parseGenericText (T : String) : List String :=
   ["\n\n// ParseGeneric calls TypedEnum.Parse but returns the result\n// in the generic genum.Enum interface. Which is useful when you are only able to work with\n// the un-typed interface.\nfunc (e ",
     T, ") ParseGeneric(input any) (genum.Enum, error) {\n\treturn Parse", T, "(input)\n}"]
 
-theorem go_render_parseGeneric_eq (r : Root) (i : Nat) (T : String) (vs : List Value) (hv : r.values[i]? = some vs) :
+theorem go_render_parseGeneric_eq (r : Root) (i : Nat) (T : String) (vs : List Value) (ts : List TraitDesc)
+    (hv : r.values[i]? = some vs) (ht : r.traits[i]? = some ts) :
     renderSec r i T secParseGeneric = some (parseGenericText T) := by
   have h1 := values_at r i vs hv
-  tsimp [secParseGeneric, h1, parseGenericText]
+  have h3 := traits_at r i ts ht
+  tsimp [h3, secParseGeneric, h1, parseGenericText]
 
 /-! ### the statements of C04 / C05 / C12, for the extracted template and the translated values -/
 
@@ -405,7 +416,8 @@ for type number `i` - `ValueDeduplicatedSet` being the TRANSLATED one - writes t
 that `g.string` of every defined value is its primary name, `Undefined<T>:<n>` otherwise, `g.isValid` is
 true exactly on the defined values, and `g.values` is their ascending list. -/
 theorem go_template_string_primary (o : Options) (f : FileDef) (types : List String) (traits : List (List TraitDesc))
-    (i : Nat) (t : String) (k : IntKind) (hi : types[i]? = some t) (h : Accepted f t k) :
+    (i : Nat) (t : String) (k : IntKind) (ts : List TraitDesc) (hi : types[i]? = some t) (ht : traits[i]? = some ts)
+    (h : Accepted f t k) :
     ∃ g : GenOut,
       renderSec (rootOf o f types traits) i t secTable = some (tableText t g.stringValues) ∧
       renderSec (rootOf o f types traits) i t secStringValues = some (stringValuesText t g.stringValues) ∧
@@ -419,10 +431,10 @@ theorem go_template_string_primary (o : Options) (f : FileDef) (types : List Str
   have hu := sortedValues_u64 f t
   refine ⟨genType o f t, ?_, ?_, ?_, ?_, Genum.C04.string_primary o h, Genum.C04.string_undefined o h,
     Genum.C04.isValid_iff_defined o h, Genum.C04.values_sorted_distinct o h⟩
-  · exact go_render_values_eq _ i t _ hv hu
-  · exact go_render_stringValues_eq _ i t _ hv hu
-  · exact go_render_string_eq _ i t _ hv hu
-  · exact go_render_isValid_eq _ i t _ hv
+  · exact go_render_values_eq _ i t _ ts hv ht hu
+  · exact go_render_stringValues_eq _ i t _ ts hv ht hu
+  · exact go_render_string_eq _ i t _ ts hv ht hu
+  · exact go_render_isValid_eq _ i t _ ts hv ht
 
 /-- **the `Parse` switch and the accessors of `genFull`** (the object of C05 / C12): whenever the model's
 generator accepts a definition, executing the extracted `Parse<T>` and accessor sections on its values
@@ -439,8 +451,8 @@ theorem go_template_genFull (r : Root) (f : FileDef) (t : TypeDecl) (i : Nat) (g
   refine ⟨?_, ?_, ?_, ?_⟩
   · exact go_render_parse_eq r i t.name _ ts hv ht
   · exact go_render_accessor_eq r i t.name _ ts hv ht
-  · exact go_render_string_eq r i t.name _ hv (sortedValues_u64 f t.name)
-  · exact go_render_isValid_eq r i t.name _ hv
+  · exact go_render_string_eq r i t.name _ ts hv ht (sortedValues_u64 f t.name)
+  · exact go_render_isValid_eq r i t.name _ ts hv ht
 
 /-! ### the range over the types -/
 
@@ -537,7 +549,7 @@ private theorem exVals_u64 : ∀ v ∈ exVals, U64 v := by
 
 /-- the table holds `B` (the live name of 0) and `C`; the case of `A` carries its trait constant -/
 example : renderSec exRoot 0 "E" secTable = some (tableText "E" ["B", "C"]) := by
-  rw [go_render_values_eq exRoot 0 "E" exVals rfl exVals_u64]
+  rw [go_render_values_eq exRoot 0 "E" exVals exTraits rfl rfl exVals_u64]
   rfl
 
 example : ∃ rest, renderSec exRoot 0 "E" secParse
